@@ -273,6 +273,7 @@ async fn run_scenario(sc: Scenario, seed: u64) -> Outcome {
     });
     let lport = net::free_tcp_port(false);
     let luport = net::free_udp_port();
+    let sport = net::free_tcp_port(false);
     let args: &'static ClientArgs = Box::leak(Box::new(ClientArgs {
         // scenarios named tls-*: a wss:// URL, so that a stalled attempt stalls inside the TLS session setup
         server: ServerUrl::from_str(&format!("{}://{gate_addr}/ws", if sc.name.starts_with("tls-") { "wss" } else { "ws" })).expect("url"),
@@ -280,6 +281,7 @@ async fn run_scenario(sc: Scenario, seed: u64) -> Outcome {
         remote: vec![
             Remote::from_str(&format!("127.0.0.1:{lport}:127.0.0.1:{tport}")).expect("remote"),
             Remote::from_str(&format!("127.0.0.1:{luport}:127.0.0.1:{uport}/udp")).expect("remote"),
+            Remote::from_str(&format!("127.0.0.1:{sport}:socks")).expect("remote"),
         ],
         keepalive: OptionalDuration::NONE,
         keepalive_timeout: OptionalDuration::NONE,
@@ -303,6 +305,44 @@ async fn run_scenario(sc: Scenario, seed: u64) -> Outcome {
         }
     });
     let mut cl = tokio::spawn(client::client_main_inner(args, hr, scrx, dgrx));
+    // local load during the outage (scenarios selected by name)
+    let mut side_load = Vec::new();
+    if sc.name == "udp-burst-during-outage" {
+        // more datagrams than the client queues for the tunnel (64) arrive while the tunnel is down
+        side_load.push(tokio::spawn(async move {
+            tokio::time::sleep(Duration::from_millis(350)).await;
+            if let Ok(s) = UdpSocket::bind("127.0.0.1:0").await {
+                for k in 0..200u32 {
+                    s.send_to(format!("burst-{k}").as_bytes(), ("127.0.0.1", luport)).await.ok();
+                    if k % 20 == 19 {
+                        tokio::time::sleep(Duration::from_millis(5)).await;
+                    }
+                }
+            }
+        }));
+    }
+    if sc.name == "socks-pile-up-during-outage" {
+        // more SOCKS requests than the channel between the handlers and the main loop holds (64) pile up while the tunnel is down
+        for k in 0..110u32 {
+            side_load.push(tokio::spawn(async move {
+                tokio::time::sleep(Duration::from_millis(400 + u64::from(k))).await;
+                let Ok(mut s) = TcpStream::connect(("127.0.0.1", sport)).await else { return };
+                if s.write_all(&[5, 1, 0]).await.is_err() {
+                    return;
+                }
+                let mut m = [0u8; 2];
+                if s.read_exact(&mut m).await.is_err() {
+                    return;
+                }
+                let mut req = vec![5u8, 1, 0, 1, 127, 0, 0, 1];
+                req.extend(tport.to_be_bytes());
+                s.write_all(&req).await.ok();
+                // keep the connection (and its pending request) until the scenario is over
+                let mut b = [0u8; 16];
+                let _ = tokio::time::timeout(Duration::from_secs(20), s.read(&mut b)).await;
+            }));
+        }
+    }
     let mut exit: Option<(Duration, String)> = None;
     let mut conv_handle = None;
     let mut udp_ok = None;
@@ -371,6 +411,9 @@ async fn run_scenario(sc: Scenario, seed: u64) -> Outcome {
     };
     let quiescent_at_end = tokio::task::spawn_blocking(|| net::process_quiescent(8, Duration::from_millis(60))).await.unwrap_or(false);
     cl.abort();
+    for h in side_load {
+        h.abort();
+    }
     ticker.abort();
     let max_timer_overshoot_ms = overshoot.load(std::sync::atomic::Ordering::Relaxed);
     g.abort();
@@ -399,6 +442,10 @@ fn scenarios(rng: &mut Rng64, thorough: bool) -> Vec<Scenario> {
         Scenario { name: "parked-request-retried-on-dying-connections", script: vec![Act::ForwardSwallowCut(100, 120), Act::UpgradeThenSwallowCut(60), Act::UpgradeThenSwallowCut(60), Act::UpgradeThenSwallowCut(60), Act::Healthy], max_retry_count: 0, max_retry_interval: 1600, converse_at: Some(150), udp_after_ms: None, expect_exit: None, observe_ms: 4500 },
         // the attempt stalls before the WebSocket upgrade can even be sent (TLS session setup against a silent peer)
         Scenario { name: "tls-stall-retry-limit-2", script: vec![Act::Stall; 8], max_retry_count: 2, max_retry_interval: 400, converse_at: None, udp_after_ms: None, expect_exit: Some("MaxRetryCountReached"), observe_ms: 6500 },
+        // local UDP traffic does not stop because the tunnel is down: the client survives the burst and UDP works afterwards
+        Scenario { name: "udp-burst-during-outage", script: vec![Act::Rst, Act::Rst, Act::Rst, Act::Rst, Act::Healthy], max_retry_count: 0, max_retry_interval: 400, converse_at: None, udp_after_ms: Some(2600), expect_exit: None, observe_ms: 5500 },
+        // neither do local SOCKS clients: more requests than the internal channel holds pile up behind one TCP-remote connection
+        Scenario { name: "socks-pile-up-during-outage", script: vec![Act::Rst, Act::Rst, Act::Rst, Act::Rst, Act::Healthy], max_retry_count: 0, max_retry_interval: 400, converse_at: Some(300), udp_after_ms: None, expect_exit: None, observe_ms: 5000 },
         // a long outage in little time: 100 consecutive failures with a tiny retry cap, then the server is back
         Scenario { name: "long-outage-100", script: { let mut v = vec![Act::Rst; 100]; v.push(Act::Healthy); v }, max_retry_count: 0, max_retry_interval: 3, converse_at: Some(50), udp_after_ms: None, expect_exit: None, observe_ms: 3500 },
     ];
